@@ -49,6 +49,22 @@ pub fn ops_for(n: usize) -> Vec<Op> {
     v.push(Op::Clear);
     v
 }
+/// Operation alphabet for the second exploration: fewer ordinary operations, plus `truncate` with
+/// arguments beyond every 8-, 16- and 32-bit width (k mod 2^w may be smaller than the length).
+pub fn ops_wide(n: usize) -> Vec<Op> {
+    let mut v = vec![Op::Push, Op::Extend(n.min(2)), Op::Extend(n), Op::Truncate(1), Op::Clear];
+    for w in [8u32, 16, 32] {
+        v.push(Op::Truncate(1usize << w));
+        v.push(Op::Truncate((1usize << w) + 1));
+    }
+    v.push(Op::Truncate(usize::MAX));
+    v.push(Op::Truncate((1usize << 63) + 2));
+    v
+}
+/// Coarse operations for large capacities (contents longer than any small threshold, buffer not full).
+pub fn ops_large(n: usize) -> Vec<Op> {
+    vec![Op::Push, Op::Extend(1), Op::Extend(n / 2 + 1), Op::Extend(n - 3), Op::Extend(33), Op::Truncate(34), Op::Truncate(n / 2), Op::Truncate(2), Op::Clear]
+}
 
 /// Ideal capacity-bounded vector.
 struct Ideal {
@@ -176,8 +192,7 @@ fn seq_from_index(mut idx: u64, ops: &[Op], len: usize) -> Vec<Op> {
     v
 }
 
-fn explore<S: Subject>(name: &str, nparam: usize, depth: usize) -> (Tally, Counts, u64, u64) {
-    let ops = ops_for(nparam);
+fn explore<S: Subject>(name: &str, ops: Vec<Op>, depth: usize) -> (Tally, Counts, u64, u64) {
     let mut tally = Tally::new();
     let mut counts = Counts::default();
     let mut nseq = 0u64;
@@ -235,6 +250,9 @@ macro_rules! dispatch {
             3 => $f::<ArrayBuf<3>>($($a),*),
             4 => $f::<ArrayBuf<4>>($($a),*),
             6 => $f::<ArrayBuf<6>>($($a),*),
+            40 => $f::<ArrayBuf<40>>($($a),*),
+            64 => $f::<ArrayBuf<64>>($($a),*),
+            300 => $f::<ArrayBuf<300>>($($a),*),
             _ => machinery("e5: capacity not instantiated"),
         }
     };
@@ -292,7 +310,7 @@ pub fn run(tier: Tier) -> ! {
     };
     for (n, depth) in plan {
         let name = format!("ArrayBuf<{}>", n);
-        let (t, c, s, o) = dispatch!(n, explore, &name, n, depth);
+        let (t, c, s, o) = dispatch!(n, explore, &name, ops_for(n), depth);
         ctx.log(&format!("{}: {} sequences up to depth {} ({} operations), {} violation instances", name, s, depth, o, t.total()));
         runs.push(J::obj().set("subject", name).set("depth", depth).set("alphabet", 2 * n + 6).set("sequences", s));
         tally.merge(t);
@@ -300,9 +318,30 @@ pub fn run(tier: Tier) -> ! {
         nseq += s;
         nops += o;
     }
+    // second exploration: truncate with huge arguments; third: large capacities with coarse operations
+    for (n, depth) in [(3usize, tier.pick(5, 6)), (6, tier.pick(4, 5))] {
+        let name = format!("ArrayBuf<{}>", n);
+        let (t, c, s, o) = dispatch!(n, explore, &name, ops_wide(n), depth);
+        ctx.log(&format!("{} with huge truncate arguments: {} sequences up to depth {}, {} violation instances", name, s, depth, t.total()));
+        runs.push(J::obj().set("subject", name).set("depth", depth).set("alphabet", "push, extend, truncate(1), clear, truncate(2^8, 2^8+1, 2^16, 2^16+1, 2^32, 2^32+1, usize::MAX, 2^63+2)").set("sequences", s));
+        tally.merge(t);
+        counts.merge(&c);
+        nseq += s;
+        nops += o;
+    }
+    for (n, depth) in [(40usize, tier.pick(5, 6)), (64, tier.pick(4, 5)), (300, tier.pick(4, 5))] {
+        let name = format!("ArrayBuf<{}>", n);
+        let (t, c, s, o) = dispatch!(n, explore, &name, ops_large(n), depth);
+        ctx.log(&format!("{} with coarse operations: {} sequences up to depth {}, {} violation instances", name, s, depth, t.total()));
+        runs.push(J::obj().set("subject", name).set("depth", depth).set("alphabet", "push, extend(1 | N/2+1 | N-3 | 33), truncate(34 | N/2 | 2), clear").set("sequences", s));
+        tally.merge(t);
+        counts.merge(&c);
+        nseq += s;
+        nops += o;
+    }
     {
         let depth = tier.pick(5, 6);
-        let (t, c, s, o) = explore::<Vec<u8>>("Vec", 3, depth);
+        let (t, c, s, o) = explore::<Vec<u8>>("Vec", ops_for(3), depth);
         ctx.log(&format!("Vec<u8> as Buffer: {} sequences up to depth {}, {} violation instances", s, depth, t.total()));
         runs.push(J::obj().set("subject", "Vec<u8>").set("depth", depth).set("sequences", s));
         tally.merge(t);
